@@ -1,51 +1,91 @@
-(* C11  Gradient field: unit vectors that do not perturb the traveltimes.
-   Only statements and `exact`; the proofs are in proofs/. *)
-From Coq Require Import ZArith List Bool Reals.
-From FT.lib Require Import Num Arr ArrLemmas Lower.
-From FT.gen Require Import Common Fteik2d Fteik3d.
-From FT.proofs Require Import Sweep2dProofs Sweep3dProofs GradR.
+(* C11  Gradient field: unit vectors that do not perturb the traveltimes (model: gen/Fteik2d.v, gen/Fteik3d.v, gen/Common.v)
+   Only statements and `exact`: the proofs are in proofs/.  Written by tools/mkprops.py from Coq's own printing of the
+   lemma statements; every statement is in full below so that it cannot be weakened without this file changing. *)
+From Coq Require Import ZArith List Bool Reals Lia Lra.
+From FT.lib Require Import Num Arr ArrLemmas Lower NumArr.
+From FT.gen Require Import Common Interp2d Interp3d Vinterp2d Vinterp3d FteikCommon Fteik2d Fteik3d Ray2d Ray3d.
+From FT.proofs Require Import Sweep2dProofs Sweep3dProofs GradR Solve2dProofs Solve3dProofs.
 Import ListNotations.
-Open Scope Z_scope.
+Open Scope R_scope.
 
-(* the traveltime output of a single update does not depend on the gradient flag nor on the sign array
-   (source semantics, every numeric instance: bit for bit for binary64) *)
-Theorem C11_sweep_tt_independent_of_grad_2d :
+(* one node update: the traveltime written does not depend on the gradient flag nor on the sign array (every numeric instance: bit for bit) *)
+Theorem C11_sweep_tt_independent_of_grad :
   forall (T : Type) (H : Num T) (tt : arr T) (ttsgn ttsgn' : arr Z) (slow : arr T) (dargs : T * T * T * T * T * T)
          (zsi xsi zsa xsa vzero : T) (i j sgnvz sgnvx sgntz sgntx nz nx : Z) (grad grad' : bool),
-  fst (Fteik2d.sweep tt ttsgn slow dargs zsi xsi zsa xsa vzero i j sgnvz sgnvx sgntz sgntx nz nx grad) =
-  fst (Fteik2d.sweep tt ttsgn' slow dargs zsi xsi zsa xsa vzero i j sgnvz sgnvx sgntz sgntx nz nx grad').
+       fst (Fteik2d.sweep tt ttsgn slow dargs zsi xsi zsa xsa vzero i j sgnvz sgnvx sgntz sgntx nz nx grad) =
+       fst (Fteik2d.sweep tt ttsgn' slow dargs zsi xsi zsa xsa vzero i j sgnvz sgnvx sgntz sgntx nz nx grad').
 Proof. exact @Sweep2dProofs.sweep_tt_indep. Qed.
 
-(* a whole pass: all shapes, every instance *)
+(* a whole 2D pass *)
 Theorem C11_sweep2d_tt_independent_of_grad :
   forall (T : Type) (H : Num T) (nz nx : Z) (tt : arr T) (ttsgn ttsgn' : arr Z) (slow : arr T)
          (dz dx zsi xsi zsa xsa vzero : T) (grad grad' : bool),
-  fst (sweep2d tt ttsgn slow dz dx zsi xsi zsa xsa vzero nz nx grad) =
-  fst (sweep2d tt ttsgn' slow dz dx zsi xsi zsa xsa vzero nz nx grad').
+       fst (sweep2d tt ttsgn slow dz dx zsi xsi zsa xsa vzero nz nx grad) =
+       fst (sweep2d tt ttsgn' slow dz dx zsi xsi zsa xsa vzero nz nx grad').
 Proof. exact @Sweep2dProofs.sweep2d_tt_indep. Qed.
 
+(* a whole 3D pass *)
 Theorem C11_sweep3d_tt_independent_of_grad :
-  forall (T : Type) (H : Num T) (nz nx ny : Z) (tt : arr T) (ttsgn ttsgn' : arr Z) (slow : arr T) (dz dx dy : T) (grad grad' : bool),
-  fst (sweep3d tt ttsgn slow dz dx dy nz nx ny grad) = fst (sweep3d tt ttsgn' slow dz dx dy nz nx ny grad').
+  forall (T : Type) (H : Num T) (nz nx ny : Z) (tt : arr T) (ttsgn ttsgn' : arr Z) (slow : arr T) 
+         (dz dx dy : T) (grad grad' : bool),
+       fst (sweep3d tt ttsgn slow dz dx dy nz nx ny grad) = fst (sweep3d tt ttsgn' slow dz dx dy nz nx ny grad').
 Proof. exact @Sweep3dProofs.sweep3d_tt_indep. Qed.
 
-(* exact arithmetic: the normalisation `ttgrad[i, j] /= gn` under the test `gn > 0` yields a unit vector, and the test
-   fails only for the zero vector, so every assembled vector has norm 1 or 0 *)
-Theorem C11_normalised_has_unit_norm_2d :
-  forall a b : R, (0 < norm2d (T:=R) a b)%R ->
-  norm2d (T:=R) (a / norm2d (T:=R) a b)%R (b / norm2d (T:=R) a b)%R = 1%R.
-Proof. exact norm2d_normalised. Qed.
-Theorem C11_normalised_has_unit_norm_3d :
-  forall a b c : R, (0 < norm3d (T:=R) a b c)%R ->
-  norm3d (T:=R) (a / norm3d (T:=R) a b c)%R (b / norm3d (T:=R) a b c)%R (c / norm3d (T:=R) a b c)%R = 1%R.
-Proof. exact norm3d_normalised. Qed.
-Theorem C11_norm_zero_only_for_zero_vector :
-  forall a b : R, norm2d (T:=R) a b = 0%R <-> a = 0%R /\ b = 0%R.
-Proof. exact norm2d_zero_iff. Qed.
+(* the whole 2D solver (source initialisation, sweeps, assembly): traveltime grid and source-cell slowness with return_gradient=True equal those without, in the source semantics (the compiled 3D build deviates by a few ulp: known finding F6) *)
+Theorem C11_solve2d_tt_independent_of_grad :
+  forall (T : Type) (H : Num T) (slow : arr T) (dz dx zsrc xsrc : T) (nsweep : Z),
+       match fteik2d slow dz dx zsrc xsrc nsweep true with
+       | Ok (t1, _, v1) =>
+           match fteik2d slow dz dx zsrc xsrc nsweep false with
+           | Ok (t2, _, v2) => t1 = t2 /\ v1 = v2
+           | _ => False
+           end
+       | Raise e1 => match fteik2d slow dz dx zsrc xsrc nsweep false with
+                     | Raise e2 => e1 = e2
+                     | _ => False
+                     end
+       | OutOfFuel => False
+       end.
+Proof. exact @Solve2dProofs.fteik2d_tt_indep_of_grad. Qed.
 
-Print Assumptions C11_sweep_tt_independent_of_grad_2d.
+(* the whole 3D solver *)
+Theorem C11_solve3d_tt_independent_of_grad :
+  forall (T : Type) (H : Num T) (slow : arr T) (dz dx dy zsrc xsrc ysrc : T) (nsweep : Z),
+       match fteik3d slow dz dx dy zsrc xsrc ysrc nsweep true with
+       | Ok (t1, _, v1) =>
+           match fteik3d slow dz dx dy zsrc xsrc ysrc nsweep false with
+           | Ok (t2, _, v2) => t1 = t2 /\ v1 = v2
+           | _ => False
+           end
+       | Raise e1 =>
+           match fteik3d slow dz dx dy zsrc xsrc ysrc nsweep false with
+           | Raise e2 => e1 = e2
+           | _ => False
+           end
+       | OutOfFuel => False
+       end.
+Proof. exact @Solve3dProofs.fteik3d_tt_indep_of_grad. Qed.
+
+(* exact arithmetic: g / |g| has norm 1 (the assembly divides when |g| > 0) *)
+Theorem C11_normalised_has_unit_norm_2d :
+  forall a b : R, 0 < norm2d a b -> norm2d (a / norm2d a b) (b / norm2d a b) = 1.
+Proof. exact @GradR.norm2d_normalised. Qed.
+
+(* 3D *)
+Theorem C11_normalised_has_unit_norm_3d :
+  forall a b c : R, 0 < norm3d a b c -> norm3d (a / norm3d a b c) (b / norm3d a b c) (c / norm3d a b c) = 1.
+Proof. exact @GradR.norm3d_normalised. Qed.
+
+(* the test |g| > 0 fails only for the zero vector *)
+Theorem C11_norm_zero_only_for_zero_vector :
+  forall a b : R, norm2d a b = 0 <-> a = 0 /\ b = 0.
+Proof. exact @GradR.norm2d_zero_iff. Qed.
+
+Print Assumptions C11_sweep_tt_independent_of_grad.
 Print Assumptions C11_sweep2d_tt_independent_of_grad.
 Print Assumptions C11_sweep3d_tt_independent_of_grad.
+Print Assumptions C11_solve2d_tt_independent_of_grad.
+Print Assumptions C11_solve3d_tt_independent_of_grad.
 Print Assumptions C11_normalised_has_unit_norm_2d.
 Print Assumptions C11_normalised_has_unit_norm_3d.
 Print Assumptions C11_norm_zero_only_for_zero_vector.
